@@ -198,7 +198,7 @@ impl PairModel {
                                     _ => 32,
                                 };
                             }
-                            PAct::TryWithZ { .. } => w.do_try_with(false, Ty::Unit, false, crate::arena::ops::Inner::Nothing, false, &[]),
+                            PAct::TryWithZ { .. } => w.do_try_with(false, Ty::Unit, false, crate::arena::ops::Inner::Nothing, false, 0, &[]),
                             _ => {}
                         }
                         for j in 0..w.live.len() {
